@@ -1,4 +1,5 @@
 import Sourcer.Proofs.Refine
+import Sourcer.Proofs.Bounds
 /-
   Property theorems (statements only; proofs are one-liners over Sourcer/Proofs/*).
   Every theorem is followed by an `example` showing its hypotheses are met by a concrete,
@@ -91,5 +92,105 @@ theorem C01_longest_first_on_ties (P : Program) (inp : List Nat) (fuel : Nat) (a
 
 example : peg exP [97, 98] 4 (.str [97] false) 0 = some (.ok (.str [97]) 1) ∧
     peg exP [97, 98] 4 (.ref 0) 0 = some (.ok (.str [98]) 2) := ⟨by rfl, by rfl⟩
+
+/-! ## C03 – bounded repetition and separated lists (clauses spelled out by the property) -/
+
+/-- `e{min, min+k}` returns at least `min` and at most `min+k` elements, and it is greedy: it
+    stops only at the upper bound or where the element fails. -/
+theorem C03_len_bounds (P : Program) (inp : List Nat) (fuel : Nat) (e : Expr) (min : Nat)
+    (extra : Option Nat) (p : Nat) (v : Val) (p' : Nat)
+    (h : peg P inp (fuel + 1) (.list e min extra) p = some (.ok v p')) :
+    ∃ vs, v = .list vs ∧ min ≤ vs.length ∧ (∀ k, extra = some k → vs.length ≤ min + k) ∧
+      ((∃ k, extra = some k ∧ vs.length = min + k) ∨ peg P inp fuel e p' = some .fail) := by
+  simp only [peg, pegList] at h
+  split at h
+  · rename_i hm
+    simp at h; obtain ⟨h1, h2⟩ := h; subst h1 h2
+    cases extra with
+    | none => simp [maxOf] at hm
+    | some k =>
+      simp [maxOf] at hm
+      exact ⟨[], rfl, by simp [hm.1], fun _ _ => by simp, Or.inl ⟨k, rfl, by simp [hm.1, hm.2]⟩⟩
+  · rename_i hm
+    split at h
+    · simp at h
+    · rename_i acc p1 hloop
+      obtain ⟨_, hub, hstop⟩ := pegListLoop_spec e _ _ _ _ _ _ hloop
+      split at h
+      · rename_i hlen
+        simp at h; obtain ⟨h1, h2⟩ := h; subst h1 h2
+        refine ⟨acc.reverse, rfl, by simpa using hlen, ?_, ?_⟩
+        · intro k hk
+          have := hub (min + k) (by simp [maxOf, hk]) (by
+            simp only [List.length_nil]
+            cases hz : min + k with
+            | zero => simp [maxOf, hk, hz] at hm
+            | succ n => omega)
+          simpa using this
+        · rcases hstop with hstop | hstop
+          · left
+            cases extra with
+            | none => simp [maxOf] at hstop
+            | some k => exact ⟨k, rfl, by simp [maxOf] at hstop; simp; omega⟩
+          · exact Or.inr hstop
+      · simp at h
+
+/-- a list whose first element does not match is `[]` if empty lists are allowed, else a failure -/
+theorem C03_sep_allow_empty (run : PRun) (fuel : Nat) (e s : Expr) (o : SepOpts) (p : Nat)
+    (h : run e p = some .fail) :
+    pegSep run (fuel + 1) e s o p = some (if o.empty then .ok (.list []) p else .fail) := by
+  obtain ⟨d, t, em, rq⟩ := o
+  cases em <;> cases rq <;> simp [pegSep, pegSepLoop, h, sepAccepts]
+
+/-- one element and no separator after it: accepted unless a separator is required -/
+theorem C03_sep_require_separator (run : PRun) (fuel : Nat) (e s : Expr) (o : SepOpts)
+    (p p1 : Nat) (v : Val) (h1 : run e p = some (.ok v p1)) (h2 : run s p1 = some .fail) :
+    pegSep run (fuel + 1) e s o p = some (if o.require then .fail else .ok (.list [v]) p1) := by
+  obtain ⟨d, t, em, rq⟩ := o
+  cases em <;> cases rq <;> simp [pegSep, pegSepLoop, h1, h2, sepAccepts]
+
+/-- element, separator, then no further element: the separator is consumed iff `allow_trailer`,
+    otherwise the list ends right after the element and the separator stays in the input; a
+    kept separator that is left in the input is not part of the result -/
+theorem C03_sep_trailer (run : PRun) (fuel : Nat) (e s : Expr) (o : SepOpts)
+    (p p1 p2 : Nat) (v w : Val) (hreq : o.require = false) (hemp : o.empty = true)
+    (h1 : run e p = some (.ok v p1)) (h2 : run s p1 = some (.ok w p2))
+    (h3 : run e p2 = some .fail) :
+    pegSep run (fuel + 2) e s o p =
+      some (.ok (.list (if !o.discard && o.trailer then [v, w] else [v])) (if o.trailer then p2 else p1)) := by
+  obtain ⟨d, t, em, rq⟩ := o
+  simp only at hreq hemp
+  subst hreq hemp
+  cases d <;> cases t <;> simp [pegSep, pegSepLoop, h1, h2, h3, sepAccepts]
+
+/-- two elements with a separator between them: the separator is part of the result iff
+    separators are kept -/
+theorem C03_sep_keeps_separators (run : PRun) (fuel : Nat) (e s : Expr) (o : SepOpts)
+    (p p1 p2 p3 : Nat) (v w v2 : Val) (hreq : o.require = false)
+    (h1 : run e p = some (.ok v p1)) (h2 : run s p1 = some (.ok w p2))
+    (h3 : run e p2 = some (.ok v2 p3)) (h4 : run s p3 = some .fail) :
+    pegSep run (fuel + 2) e s o p =
+      some (.ok (.list (if o.discard then [v, v2] else [v, w, v2])) p3) := by
+  obtain ⟨d, t, em, rq⟩ := o
+  simp only at hreq
+  subst hreq
+  cases d <;> cases em <;> cases t <;> simp [pegSep, pegSepLoop, h1, h2, h3, h4, sepAccepts]
+
+/-- a repetition or separated list that cannot be completed has no effect on where the next
+    alternative starts (code model) -/
+theorem C03_no_effect_on_failure {F : FlagTable} (hF : LocallySound F) (P : Program)
+    (inp : List Nat) (fuel : Nat) (l b : Expr) (p : Nat) (res : Res)
+    (hl : peg P inp fuel l p = some .fail) (hb : peg P inp fuel b p = some res) :
+    ∃ r, gen F P inp (fuel + 1) (.choice [l, b]) p = some r ∧ Rel r res :=
+  C01_failed_alternative_leaves_no_trace hF P inp fuel l b p res hl hb
+
+-- non-vacuity: `"a"{2,3}` on `aaaa` gives three elements; `"a"{2}` fails on `ab` after consuming one `a`
+example : peg exP [97, 97, 97, 97] 6 (.list (.str [97] false) 2 (some 1)) 0
+    = some (.ok (.list [.str [97], .str [97], .str [97]]) 3) := by rfl
+example : peg exP [97, 98] 6 (.list (.str [97] false) 2 (some 0)) 0 = some .fail := by rfl
+example : peg exP [97, 98] 6 (.sep (.str [97] false) (.str [98] false) ⟨true, true, true, false⟩) 0
+    = some (.ok (.list [.str [97]]) 2) := by rfl
+example : peg exP [97, 98] 6 (.sep (.str [97] false) (.str [98] false) ⟨true, false, true, false⟩) 0
+    = some (.ok (.list [.str [97]]) 1) := by rfl
 
 end Sourcer
